@@ -337,7 +337,7 @@ def cells(tier, seed):
     return out
 
 
-MECHS = ["state_dict_fresh", "state_dict_used", "state_dict_cast", "pickle", "torch_save", "deepcopy"]
+MECHS = ["state_dict_fresh", "state_dict_used", "state_dict_cast", "state_dict_direct_nonstrict", "pickle", "torch_save", "deepcopy"]
 
 
 def run_cell(cell, seed):
@@ -390,6 +390,11 @@ def run_cell(cell, seed):
                     target.eval()
                     with torch.no_grad():
                         target(Xs, Xs) if spec[0] == "list" else target(Xs)  # the target has predicted with ITS OWN parameters
+                if mech == "state_dict_direct_nonstrict":
+                    # in-memory transfer b.load_state_dict(a.state_dict()) (the dict's tensors ARE a's parameters) into a model that
+                    # accepts differently shaped entries (load_strict_shapes(False))
+                    sd = model.state_dict()
+                    target.load_strict_shapes(False)
                 target.load_state_dict(sd)
                 restored = target
             elif mech == "pickle":
